@@ -77,6 +77,12 @@ pub fn seeds() -> Vec<Seed> {
                 s.buffer_size = b.get_size();
                 b.set_sauce(Some(s), false);
             }
+            if *ext == "icy" && variant % 2 == 1 {
+                // optional chunks are only written when there is something to say: a non-default palette (PALETTE chunk), a second font
+                b.palette.set_color(3, icy_engine::Color::new(1, 2, 3));
+                b.palette.title = "a palette".to_string();
+                b.set_font(1, BitFont::default());
+            }
             if *ext == "xb" && variant == 1 {
                 b.set_font(1, BitFont::default());
                 b.font_mode = icy_engine::FontMode::FixedSize;
@@ -209,6 +215,30 @@ pub fn cases(seed: u64, thorough: bool, faults: &[Value]) -> Vec<LCase> {
             push(&mut out, format!("trunc:{k}"), s.bytes[..k].to_vec());
             k += if k < 160 || k + 160 > n { 1 } else { stride };
         }
+        // text formats carry their numbers as decimal / hex digit strings: every digit run of the first 4 KiB replaced by the
+        // extremes of every integer width (a count, a size or an index that is parsed and then trusted), also for the text
+        // chunks inside an IcyDraw file (re-wrapped below) and the SAUCE-less text art seeds
+        if s.bytes.iter().take(4096).filter(|b| b.is_ascii_graphic() || b.is_ascii_whitespace()).count() * 10 >= s.bytes.len().min(4096) * 9 {
+            let head = &s.bytes[..n.min(4096)];
+            let mut i = 0;
+            let mut runs = 0;
+            while i < head.len() && runs < 40 {
+                if head[i].is_ascii_digit() {
+                    let mut j = i;
+                    while j < head.len() && head[j].is_ascii_digit() { j += 1; }
+                    for val in ["0", "1", "255", "256", "65535", "65536", "2147483647", "2147483648", "4294967295", "4294967296", "9223372036854775807", "18446744073709551615", "18446744073709551616", "99999999999999999999999999999999"] {
+                        let mut b = s.bytes[..i].to_vec();
+                        b.extend(val.as_bytes());
+                        b.extend(&s.bytes[j..]);
+                        push(&mut out, format!("num@{i}={val}"), b);
+                    }
+                    runs += 1;
+                    i = j;
+                } else {
+                    i += 1;
+                }
+            }
+        }
         // header bytes: every byte of the first 48 set to extremes; 16/32-bit extremes at every even offset
         for off in 0..n.min(48) {
             for val in [0u8, 1, 0x7F, 0x80, 0xFF] {
@@ -296,6 +326,24 @@ pub fn cases(seed: u64, thorough: bool, faults: &[Value]) -> Vec<LCase> {
             for off in 0..n.min(72) {
                 for val in [0u8, 1, 2, 3, 4, 0x7F, 0x80, 0xFF] { if payload[off] != val { let mut b = payload.clone(); b[off] = val; muts.push((format!("byte:{off}={val}"), b)); } }
                 if off + 4 <= n { for val in [0xFFFF_FFFFu32, 0x7FFF_FFFF, 0x8000_0000, 0x0001_0000] { let mut b = payload.clone(); b[off..off + 4].copy_from_slice(&val.to_le_bytes()); muts.push((format!("u32:{off}={val}"), b)); } }
+            }
+            // text payloads (the PALETTE chunk is an ICE palette file): digit runs replaced by integer extremes
+            if n > 0 && payload.iter().filter(|b| b.is_ascii_graphic() || b.is_ascii_whitespace()).count() * 10 >= n * 9 {
+                let (mut i, mut runs) = (0, 0);
+                while i < n && runs < 24 {
+                    if payload[i].is_ascii_digit() {
+                        let mut j = i;
+                        while j < n && payload[j].is_ascii_digit() { j += 1; }
+                        for val in ["0", "65536", "4294967296", "18446744073709551615", "99999999999999999999999999999999"] {
+                            let mut b = payload[..i].to_vec();
+                            b.extend(val.as_bytes());
+                            b.extend(&payload[j..]);
+                            muts.push((format!("num@{i}={val}"), b));
+                        }
+                        runs += 1;
+                        i = j;
+                    } else { i += 1; }
+                }
             }
             for i in 0..(if thorough { 200 } else { 30 }) {
                 if n == 0 { break; }
